@@ -5,8 +5,16 @@ package main
 import (
 	"fmt"
 	"math/big"
+	"os"
+	"path/filepath"
+	"strconv"
 	"strings"
 	"time"
+
+	"rare/pkg/color"
+	"rare/pkg/expressions/stdlib"
+	"rare/pkg/extractor"
+	"rare/pkg/multiterm/termunicode"
 )
 
 // C08: no template and no input line can crash compilation or evaluation.
@@ -14,11 +22,90 @@ import (
 // functions used, and otherwise the only oracle is "the real code returned" (a Go panic or a hang is
 // always reported).
 
+// c08LoadDir is where the `exprw` op materialises the one readable file of its world.
+var c08LoadDir = filepath.Join(os.TempDir(), "verif-c08-load")
+
 func c08Run(f []string) string {
 	if a, ok := exprRun(f); ok {
 		return a
 	}
+	switch f[0] {
+	case "exprw":
+		// exprw <color> <unicode> <noload> <path> <content|x> <opt> <template> <elems> <keys>
+		if len(f) != 10 {
+			return "bad-op"
+		}
+		oc, ou, ol := color.Enabled, termunicode.UnicodeEnabled, stdlib.DisableLoad
+		defer func() { color.Enabled, termunicode.UnicodeEnabled, stdlib.DisableLoad = oc, ou, ol }()
+		color.Enabled, termunicode.UnicodeEnabled, stdlib.DisableLoad = f[1] == "1", f[2] == "1", f[3] == "1"
+		path := string(UnHex(f[4]))
+		if strings.HasPrefix(path, c08LoadDir+string(os.PathSeparator)) {
+			os.MkdirAll(c08LoadDir, 0o755)
+			if f[5] == "x" {
+				os.Remove(path)
+			} else if err := os.WriteFile(path, UnHex(f[5]), 0o644); err != nil {
+				return "bad-setup " + err.Error()
+			}
+		}
+		a, _ := exprRun([]string{"expr", f[6], f[7], f[8], f[9]})
+		return a
+	case "gm":
+		// gm <line> <indices> <idx>: SliceSpaceExpressionContext.GetMatch on a prescribed index slice
+		if len(f) != 4 {
+			return "bad-op"
+		}
+		var idxs []int
+		if f[2] != "." {
+			for _, p := range strings.Split(f[2], ",") {
+				v, err := strconv.Atoi(p)
+				if err != nil {
+					return "bad-args"
+				}
+				idxs = append(idxs, v)
+			}
+		}
+		i, err := strconv.Atoi(f[3])
+		if err != nil {
+			return "bad-args"
+		}
+		return "ok " + HexS(extractor.VerifContext(string(UnHex(f[1])), idxs, nil).GetMatch(i))
+	case "funcs":
+		if len(f) != 6 {
+			return "bad-op"
+		}
+		return c10Run(f)
+	}
 	return "bad-op"
+}
+
+// c08Idx: the boundary indices / counts for a table (string, array) of n entries: both ends of int64,
+// the table ends ±1 from both sides, and the points where `i + n` or `MaxInt64 - n` wrap.
+func c08Idx(n int) []string {
+	var out []string
+	seen := map[string]bool{}
+	add := func(v *big.Int) {
+		if v.IsInt64() && !seen[v.String()] {
+			seen[v.String()] = true
+			out = append(out, v.String())
+		}
+	}
+	min64 := new(big.Int).Neg(new(big.Int).Lsh(big.NewInt(1), 63))
+	max64 := new(big.Int).Sub(new(big.Int).Lsh(big.NewInt(1), 63), big.NewInt(1))
+	for _, base := range []*big.Int{min64, big.NewInt(int64(-n)), big.NewInt(0), big.NewInt(int64(n)), new(big.Int).Sub(max64, big.NewInt(int64(n))), max64} {
+		for d := int64(-1); d <= 1; d++ {
+			add(new(big.Int).Add(base, big.NewInt(d)))
+		}
+	}
+	return out
+}
+
+// c08Arg renders a value as a quoted constant or as a match group (appending to el).
+func c08Arg(r *Rand, v string, el *[]string, constOnly bool) string {
+	if constOnly || r.Bool() {
+		return quoteArg(v)
+	}
+	*el = append(*el, v)
+	return fmt.Sprintf("{%d}", len(*el)-1)
 }
 
 var c08Boundary = []string{"", " ", "0", "-0", "+0", "1", "-1", "007", "9223372036854775807", "-9223372036854775808",
@@ -147,6 +234,149 @@ func c08Gen(r *Rand, tier string) []string {
 			}
 		}
 	}
+	// 3c. index / size guards (every guard regenerated into Gen/C08.lean): indices MinInt64, -n-1 … n+1,
+	// MaxInt64-n … MaxInt64 against tables of n entries, as constants and as match groups
+	for _, n := range []int{1, 3} {
+		str := "abcdefgh"[:n]
+		arr := strings.Join(strings.Split("abcdefgh"[:n], ""), "\x00")
+		flds := strings.Join(strings.Split("abcdefgh"[:n], ""), " ")
+		I := c08Idx(n)
+		for _, a := range I {
+			for _, b := range I {
+				if tier != "thorough" && r.Chance(1, 2) {
+					continue
+				}
+				var el []string
+				s0 := c08Arg(r, str, &el, false)
+				add(r.Bool(), "{substr "+s0+" "+c08Arg(r, a, &el, false)+" "+c08Arg(r, b, &el, false)+"}", el, nil)
+				add(r.Bool(), "{@slice {0} "+a+" "+b+"}", []string{arr}, nil)
+			}
+			var el []string
+			add(r.Bool(), "{select "+c08Arg(r, flds, &el, false)+" "+c08Arg(r, a, &el, false)+"}", el, nil)
+			add(r.Bool(), "{@select {0} "+a+"}", []string{arr}, nil)
+			add(r.Bool(), "{@slice {0} "+a+"}", []string{arr}, nil)
+			// top-level {k}: KeyBuilderContextArray.GetMatch with n elements
+			add(r.Bool(), "{"+a+"}", strings.Split("abcdefgh"[:n], ""), nil)
+			// sub-contexts (subContext.GetMatch): {k} inside @map / @filter / @reduce / @for
+			add(r.Bool(), "{@map {0} \"[{"+a+"}]\"}", []string{arr}, nil)
+			add(r.Bool(), "{@filter {0} \"{"+a+"}\"}", []string{arr}, nil)
+			add(r.Bool(), "{@reduce {0} \"{"+a+"}.{1}\"}", []string{arr}, nil)
+			add(r.Bool(), "{@for x \"{lt {1} 2}\" \"{"+a+"}\"}", []string{arr}, nil)
+			// user functions (lazySubContext.GetMatch) called with n arguments
+			call := "{fa"
+			for k := 0; k < n; k++ {
+				call += " " + string("abcdefgh"[k])
+			}
+			out = append(out, fmt.Sprintf("funcs %d %s %s %s %s", r.Intn(2), HexS("fa [{"+a+"}]\n"), HexS(call+"}"), HexListS([]string{"e0", "e1"}), "."))
+		}
+	}
+	// divisor / dividend boundaries of divi and modi
+	D := []string{"-9223372036854775808", "-9223372036854775807", "-2", "-1", "0", "1", "2", "9223372036854775806", "9223372036854775807"}
+	for _, fn := range []string{"divi", "modi"} {
+		for _, a := range D {
+			for _, b := range D {
+				var el []string
+				add(r.Bool(), "{"+fn+" "+c08Arg(r, a, &el, false)+" "+c08Arg(r, b, &el, false)+"}", el, nil)
+			}
+			var el []string
+			add(r.Bool(), "{"+fn+" "+c08Arg(r, a, &el, false)+" "+c08Arg(r, Pick(r, D), &el, false)+" "+c08Arg(r, Pick(r, D), &el, false)+"}", el, nil)
+		}
+	}
+	// precision caps
+	for _, fn := range []string{"round", "percent", "bytesize", "bytesizesi", "downscale"} {
+		for _, p := range []string{"-9223372036854775808", "-1", "0", "1", "1023", "1024", "1025", "2147483647", "2147483648", "4294967296", "9223372036854775807"} {
+			var el []string
+			add(r.Bool(), "{"+fn+" "+c08Arg(r, Pick(r, []string{"1536", "1.5", "0", "123456789"}), &el, false)+" "+p+"}", el, nil)
+		}
+	}
+	// the escape look-ahead of Compile: a backslash as the last rune, at every nesting level
+	for _, t := range []string{"\\", "a\\", "{\\", "{a \\", "{sumi 1 2}\\", "\\\\", "{sumi 1 \\", "{sumi \"1\\\" 2}", "{sumi {0}\\ 2}", "é\\", "{@map {0} \"\\\"}"} {
+		add(r.Bool(), t, []string{"1"}, nil)
+	}
+	// SliceSpaceExpressionContext.GetMatch: group indices at the wrap-around points of idx*2 and around len/2
+	{
+		line := "abcdefghij"
+		for _, ix := range [][]int{{}, {0}, {0, 3}, {0, 3, 1}, {0, 10, 2, 5}, {0, 10, -1, -1, 4, 4}, {2, 8, 2, 3, -1, 5, 5, -1}} {
+			var parts []string
+			for _, v := range ix {
+				parts = append(parts, strconv.Itoa(v))
+			}
+			is := "."
+			if len(parts) > 0 {
+				is = strings.Join(parts, ",")
+			}
+			h := len(ix) / 2
+			for _, idx := range []string{"-9223372036854775808", "-9223372036854775807", "-4611686018427387904", "-1", "0", "1", "2", strconv.Itoa(h - 1), strconv.Itoa(h), strconv.Itoa(h + 1),
+				"4611686018427387903", "4611686018427387904", "4611686018427387905", "9223372036854775806", "9223372036854775807"} {
+				out = append(out, fmt.Sprintf("gm %s %s %s", HexS(line), is, idx))
+			}
+		}
+	}
+	// 3d. color / bar / load / json in every world (exprw): both values of the colour and unicode switches,
+	// loading enabled / disabled, the file present / absent
+	{
+		os.MkdirAll(c08LoadDir, 0o755)
+		file := filepath.Join(c08LoadDir, "table.txt")
+		colors := []string{"red", "RED", "Blue", "black", "white", "magenta", "cyan", "green", "yellow", "", "pink", "blac\u212a", "wh\u0130te", "r\u00e9d", "red\xff", " red"}
+		lens := []string{"0", "1", "7", "40", "-1", "-9223372036854775808", "65536", "65537", "9223372036854775807", "x", ""}
+		vals := []string{"0", "1", "5", "10", "11", "-3", "9223372036854775807", "-9223372036854775808", "x", "", "3.5"}
+		maxs := []string{"10", "0", "-5", "1", "9223372036854775807", "-9223372036854775808", "x"}
+		scalers := []string{"", "linear", "LIN", "log10", "log", "log2", "Log2", "l\u0130n", "exp", "{0}"}
+		contents := []string{"x", "", "a 1\nb 2\n", "hello", "\x00\xff{}\\", strings.Repeat("k v\n", 50)}
+		nw := 260
+		if tier == "thorough" {
+			nw = 6000
+		}
+		for i := 0; i < nw; i++ {
+			var el []string
+			var t string
+			switch r.Intn(7) {
+			case 0, 1:
+				t = "{color " + c08Arg(r, Pick(r, colors), &el, r.Chance(3, 4)) + " " + c08Arg(r, Pick(r, []string{"txt", "", "a\x1b[0m", "\x1b[0m", "é"}), &el, false) + "}"
+			case 2, 3:
+				t = "{bar " + c08Arg(r, Pick(r, vals), &el, false) + " " + c08Arg(r, Pick(r, maxs), &el, r.Chance(3, 4)) + " " + c08Arg(r, Pick(r, lens), &el, r.Chance(3, 4))
+				if r.Bool() {
+					sc := Pick(r, scalers)
+					if sc == "{0}" {
+						el = append(el, "log2")
+						t += fmt.Sprintf(" {%d}", len(el)-1)
+					} else {
+						t += " " + quoteArg(sc)
+					}
+				}
+				t += "}"
+			case 4:
+				name := Pick(r, []string{file, file, "/nonexistent/zz", os.TempDir(), "", "{0}"})
+				if name == "{0}" {
+					el = append(el, file)
+					t = "{load {0}}"
+				} else {
+					t = "{load " + quoteArg(name) + "}"
+				}
+				if r.Chance(1, 3) {
+					t = "{lookup " + c08Arg(r, Pick(r, []string{"a", "b", "k", "zz"}), &el, false) + " " + t + "}"
+				}
+				if r.Chance(1, 8) {
+					t = "{load " + quoteArg(file) + " extra}"
+				}
+			case 5:
+				switch r.Intn(4) {
+				case 0:
+					t = "{json " + c08Arg(r, Pick(r, []string{"a", "a.b", "#", ""}), &el, false) + "}"
+				case 1:
+					t = "{json " + c08Arg(r, Pick(r, []string{"{\"a\":1}", "", "[1,2]", "{"}), &el, false) + " " + c08Arg(r, Pick(r, []string{"a", "0", "@this", "a.#(b==1)"}), &el, false) + "}"
+				case 2:
+					t = "{json }"
+				default:
+					t = "{json a b c}"
+				}
+			default:
+				t = "{color " + quoteArg(Pick(r, colors)) + " {bar " + c08Arg(r, Pick(r, vals), &el, false) + " 10 " + Pick(r, []string{"5", "12"}) + "}}"
+			}
+			out = append(out, fmt.Sprintf("exprw %d %d %d %s %s %d %s %s %s", r.Intn(2), r.Intn(2), map[bool]int{false: 0, true: 1}[r.Chance(1, 6)], HexS(file), c08Content(Pick(r, contents)),
+				r.Intn(2), HexS(normTemplate(t)), HexListS(el), "."))
+		}
+	}
 	// 4. the family generators (boundary values per helper)
 	for _, gen := range exprGens {
 		cases := gen(NewRand(r.U64()), "quick")
@@ -160,7 +390,106 @@ func c08Gen(r *Rand, tier string) []string {
 			out = append(out, c)
 		}
 	}
+	// Loops that run to MAX_ITERATIONS (answer `<INF>`) cost the Lean model a million interpreted rounds
+	// each: keep a few per run (all of them would take the quick tier beyond its budget).
+	infCap := 3
+	if tier == "thorough" {
+		infCap = 24
+	}
+	return c08CapInf(out, infCap)
+}
+
+// c08LongLoop: does the case (or one of its {@for …} / {@range …} sub-templates, evaluated on its own
+// against the same context) run into MAX_ITERATIONS?  Deterministic, so the generated case set is too.
+func c08LongLoop(p *Prop, f []string, t string) bool {
+	if !strings.Contains(t, "@for") && !strings.Contains(t, "@range") {
+		return false
+	}
+	const inf = "3c494e463e"
+	if strings.Contains(runSafe(p, f), inf) {
+		return true
+	}
+	el, ks := ".", "."
+	switch f[0] {
+	case "expr":
+		el, ks = f[3], f[4]
+	case "exprw":
+		el, ks = f[8], f[9]
+	case "funcs":
+		el, ks = f[4], f[5]
+	}
+	for _, head := range []string{"{@for", "{@range"} {
+		for from := 0; ; {
+			i := strings.Index(t[from:], head)
+			if i < 0 {
+				break
+			}
+			i += from
+			depth, j := 0, i
+			for ; j < len(t); j++ {
+				if t[j] == '\\' {
+					j++
+					continue
+				}
+				if t[j] == '{' {
+					depth++
+				} else if t[j] == '}' {
+					depth--
+					if depth == 0 {
+						break
+					}
+				}
+			}
+			if j < len(t) {
+				sub := strings.ReplaceAll(t[i:j+1], "\\\"", "\"")
+				if strings.Contains(runSafe(p, []string{"expr", "0", HexS(sub), el, ks}), inf) {
+					return true
+				}
+			}
+			from = i + 1
+		}
+	}
+	return false
+}
+
+// c08CapInf drops the cases beyond the first `max` whose real evaluation runs into MAX_ITERATIONS.
+func c08CapInf(cases []string, max int) []string {
+	p := &Prop{Run: c08Run, Timeout: 3 * time.Second}
+	seen := 0
+	out := cases[:0:0]
+	for _, c := range cases {
+		f := strings.Fields(c)
+		if len(f) >= 3 && (f[0] == "expr" || f[0] == "exprw" || f[0] == "funcs") {
+			t := ""
+			switch f[0] {
+			case "expr":
+				t = string(UnHex(f[2]))
+			case "exprw":
+				if len(f) == 10 {
+					t = string(UnHex(f[7]))
+				}
+			case "funcs":
+				if len(f) == 6 {
+					t = string(UnHex(f[2])) + string(UnHex(f[3]))
+				}
+			}
+			if c08LongLoop(p, f, t) {
+				seen++
+				if seen > max {
+					continue
+				}
+			}
+		}
+		out = append(out, c)
+	}
 	return out
+}
+
+func c08Content(c string) string {
+	if c == "x" {
+		return "x"
+	}
+	return HexS(c)
 }
 
 func quoteArg(v string) string {
@@ -183,6 +512,17 @@ func c08Stats(cases []string) map[string]int {
 		f := strings.Fields(c)
 		if len(f) < 3 {
 			continue
+		}
+		st["op."+f[0]]++
+		if f[0] == "gm" {
+			continue
+		}
+		if f[0] == "exprw" && len(f) == 10 {
+			st[fmt.Sprintf("world.color%s.unicode%s.noload%s", f[1], f[2], f[3])]++
+			f = []string{"expr", f[6], f[7], f[8], f[9]}
+		}
+		if f[0] == "funcs" && len(f) == 6 {
+			f = []string{"expr", f[1], f[3], f[4], f[5]}
 		}
 		t := string(UnHex(f[2]))
 		if i := strings.IndexByte(t, '{'); i >= 0 {
